@@ -446,7 +446,7 @@ func checkRelocate(w *core.Worker, rr *core.Rand, u []byte, big []byte) {
 						}
 						// a relocated URI is still a parsed URI: it must be movable again
 						t2 := 0
-						if n < 65535 {
+						if n < 65535 && t%4 != 1 { // (every fourth target moves back to offset 0)
 							t2 = (t*7 + 13) % (65535 - n)
 						}
 						q2 := q
